@@ -432,6 +432,10 @@ func modelAssertion(c Case, a AssertSpec, cfg VerifierCfg) verdict {
 	if a.Exp.Form != "" || a.Iat.Form != "" {
 		soft("timeform")
 	}
+	if a.Extra == "hostile" {
+		// carries an nbf in the future: the statement does not mention nbf, a verifier may honour it
+		soft("nbf-future")
+	}
 	sort.Strings(v.reject)
 	sort.Strings(v.grey)
 	sort.Strings(v.soft)
